@@ -1,0 +1,95 @@
+//go:build verif
+
+package store
+
+// Contracts for the content-addressed staging store (property C10): what is
+// committed is addressed by the digest this storage's own hasher computed over
+// what was written, the relocation into the store happens only after the data
+// was flushed and the file closed successfully, and a failed commit never
+// relocates anything. Comment-only file: compiled only under the "verif"
+// build tag, contains no code. The "//@" lines are read by /verif/govc.
+//
+// Vocabulary of the trusted contracts used here (govc/externs):
+//   nfsop, fsop, fsopok, fsopfile, fsopname, fsopname2   the log of file
+//       operations (3 Close, 5 rename, 6 Remove), os_file.spec
+//   fname(f)                        the name of *os.File f
+//   bflushed[b], bflusherr[b]       Flush was called on bufio.Writer b / its error
+//   wcalls[w], accepted[w]          writes made on / bytes accepted by writer w
+//   hashed[h]                       bytes fed to hash h
+//   sumbase/sumoff/sumlen[h]        the slice returned by the latest Sum on h
+//   nhex, hexinb/hexino/hexinl[k], hexout[k]   the hex.EncodeToString calls:
+//       encoded slice and resulting string of the k-th call
+//   pjoin3(a, b, c)                 filepath.Join(a, b, c)
+
+// addr(root, k): the storage address built from the k-th and (k+1)-th hex
+// encodings: <root>/<first two digits of the content digest>/<content digest
+// in hex><path digest in hex>.
+//@ spec addr(root, k) string = pjoin3(root, hexout[k][0:2], hexout[k] + hexout[k + 1])
+// the k-th hex encoding encoded exactly this slice
+//@ pred hexof(k, d) = hexinb[k] == base(d) && hexino[k] == off(d) && hexinl[k] == len(d)
+
+// target: the address is derived from the store root, the hex encoding of the
+// given digest (first) and of the path's digest (second); the prefix directory
+// is named by the two hex digits of the digest's first byte.
+//@ func (*Store).target
+//@   requires s != nil && len(digest) > 0
+//@   ensures[address] nhex == old(nhex) + 2 && hexof(old(nhex), digest)
+//@   ensures[address] result0 == addr(s.root, old(nhex)) && result1 == hexout[old(nhex)][0:2]
+//@   ensures[prefix] len(result1) == 2 && result1[0] == hexdigit(digest[0] / 16) && result1[1] == hexdigit(digest[0] % 16)
+//@   ensures[same] s.root == old(s.root)
+//@   modifies nhex, hexinb, hexino, hexinl, hexout
+
+// Path: the address of the requested (path, digest), or an error.
+//@ func (*Store).Path
+//@   requires s != nil
+//@   ensures[refuse] !s.initialized || len(digest) == 0 ==> result1 != nil
+//@   ensures[address] result1 == nil ==> nhex == old(nhex) + 2 && hexof(old(nhex), digest) && result0 == addr(s.root, old(nhex))
+//@   at call (*Store).target assert[requested] arg0 == s && arg1 == path && arg2 == digest
+
+// Contains: true only for a regular file found at the address of the requested
+// (path, digest) in an initialized store.
+//@ func (*Store).Contains
+//@   requires s != nil
+//@   ensures[refuse] !s.initialized || len(digest) == 0 ==> !result0 && result1 != nil
+//@   ensures[address] result0 ==> result1 == nil && nhex == old(nhex) + 2 && hexof(old(nhex), digest)
+//@   at call (*Store).target assert[requested] arg0 == s && arg1 == path && arg2 == digest
+//@   at call os.Lstat assert[address] arg0 == addr(s.root, old(nhex)) && nhex == old(nhex) + 2
+
+// A well-formed storage, as Allocate creates it and Write keeps it.
+//@ pred wfstorage(st) = st != nil && st.store != nil && st.buffer != nil && st.storage != nil && st.hasher != nil && 0 <= st.currentSize && st.currentSize <= st.store.maximumFileSize
+
+// Write: refused without touching the file when it would exceed the maximum
+// file size, otherwise the data is handed unchanged to the buffered, hashing
+// writer and the size advances by what was accepted.
+//@ func (*Storage).Write
+//@   requires[wf] wfstorage(s)
+//@   ensures[wf] wfstorage(s)
+//@   ensures[size] s.currentSize <= s.store.maximumFileSize && s.currentSize == old(s.currentSize) + result0
+//@   ensures[refused] old(s.store.maximumFileSize) - old(s.currentSize) < len(data) ==> result0 == 0 && result1 != nil && wcalls[s.buffer] == old(wcalls[s.buffer])
+//@   ensures[passed] old(s.store.maximumFileSize) - old(s.currentSize) >= len(data) ==> wcalls[s.buffer] == old(wcalls[s.buffer]) + 1 && accepted[s.buffer] == old(accepted[s.buffer]) + result0
+//@   ensures[short] result0 < len(data) ==> result1 != nil
+//@   at call bufio.(*Writer).Write assert[whole] arg0 == s.buffer && arg1 == data
+//@   modifies s.currentSize, wcalls[s.buffer], accepted[s.buffer]
+
+// Commit.
+//@ func (*Storage).Commit
+//@   requires[wf] wfstorage(s)
+// order: flush, then close, then the digest of this storage's hasher
+//@   at call bufio.(*Writer).Flush assert[order] arg0 == s.buffer && nfsop == old(nfsop)
+//@   at call os.(*File).Close assert[order] arg0 == s.storage && nfsop == old(nfsop) && bflushed[s.buffer] && bflusherr[s.buffer] == nil
+//@   at call hash.Hash.Sum assert[owndigest] arg0 == s.hasher && base(arg1) == 0 && len(arg1) == 0 && hashed[s.hasher] == old(hashed[s.hasher]) && wcalls[s.buffer] == old(wcalls[s.buffer])
+//@   at call hash.Hash.Sum assert[order] nfsop == old(nfsop) + 1 && fsop[old(nfsop)] == 3 && fsopok[old(nfsop)] && fsopfile[old(nfsop)] == s.storage
+// the address is computed for the committed path and that very digest
+//@   at call (*Store).target assert[owndigest] arg0 == s.store && arg1 == path && base(arg2) == sumbase[s.hasher] && off(arg2) == sumoff[s.hasher] && len(arg2) == sumlen[s.hasher] && nhex == old(nhex)
+// the relocation: this storage's temporary file to that address, replacing
+//@   at call filesystem.Rename assert[relocate] arg0 == nil && arg1 == fname(s.storage) && arg2 == nil && arg4 && arg3 == addr(s.store.root, old(nhex)) && nhex == old(nhex) + 2
+//@   at call filesystem.Rename assert[relocate] hexinb[old(nhex)] == sumbase[s.hasher] && hexino[old(nhex)] == sumoff[s.hasher] && hexinl[old(nhex)] == sumlen[s.hasher]
+//@   at call filesystem.Rename assert[order] nfsop == old(nfsop) + 1 && fsopok[old(nfsop)] && bflusherr[s.buffer] == nil
+// the only file removed is this storage's temporary file
+//@   at call os.Remove assert[cleanup] arg0 == fname(s.storage)
+//@   at call os.Mkdir assert[prefixdir] arg0 == pjoin2(s.store.root, hexout[old(nhex)][0:2])
+// results
+//@   ensures[success] result == nil ==> nfsop == old(nfsop) + 2 && fsop[old(nfsop)] == 3 && fsopok[old(nfsop)] && fsop[old(nfsop) + 1] == 5 && fsopok[old(nfsop) + 1] && fsopname[old(nfsop) + 1] == fname(s.storage) && fsopname2[old(nfsop) + 1] == addr(s.store.root, old(nhex))
+//@   ensures[success] result == nil ==> bflusherr[s.buffer] == nil && bflushed[s.buffer]
+//@   ensures[failure] result != nil ==> forall k in old(nfsop)..nfsop :: !(fsop[k] == 5 && fsopok[k])
+//@   ensures[cleanup] result != nil && nfsop > old(nfsop) && fsopok[old(nfsop)] ==> fsop[nfsop - 1] == 6 && fsopname[nfsop - 1] == fname(s.storage)
